@@ -609,7 +609,12 @@ func c01Read(c *cx) {
 		case "xmpp.Session.features":
 			if mu.Value != nil && f.Graph().NilnessOf(mu.Value, pt) == -1 {
 				// s.features[ns] = nil : unconditional per start element
-				c.onlyFacts("C01.10", f, mu.Node, "s.features[ns] = nil", []string{"eq(*Token*#1,nil)", "istype(*;encoding/xml.StartElement)", "eq(p2.Name.*"})
+				c.onlyFacts("C01.10", f, mu.Node, "s.features[ns] = nil", []string{"eq(*Token*#1,nil)", "istype(*;encoding/xml.StartElement)", "eq(p2.Name.*", "!commaok(p1.features[*])"})
+				// the table is keyed by namespace alone: the "nothing parsed"
+				// entry must not replace what an earlier element of the same
+				// namespace stored (a second, unknown element in the SASL namespace
+				// would hand nil to Negotiate, which asserts []string)
+				c.dom("C01.10", f, mu.Node, "s.features[ns] = nil only for a namespace not seen yet", []string{"!commaok(p1.features[*.Name.Space])"})
 				continue
 			}
 			nFeat++
